@@ -114,7 +114,7 @@ func c10WantSections(e *c10Elf) []c10Sec {
 // ---------------------------------------------------------------------------
 // run
 
-const c10Patience = 20 * time.Second
+const c10Patience = 10 * time.Second
 
 func (env *c10Env) call(what string, f func()) *vlib.Failure {
 	env.reset()
@@ -648,16 +648,16 @@ func c10GenMmap(t *rapid.T) *c10Mmap {
 	m.EntrySize = rapid.SampledFrom([]uint32{24, 24, 24, 32, 32, 40, 48, 56, 64, 72, 80}).Draw(t, "esz")
 	m.Version = rapid.SampledFrom([]uint32{0, 0, 1, 0xffffffff}).Draw(t, "ver")
 	m.Fill = rapid.SampledFrom([]byte{0, 0, 0xff, 0xa5, 1, 5}).Draw(t, "fill")
-	lo, hi := 0, 10
 	switch rapid.IntRange(0, 9).Draw(t, "nclass") {
 	case 0:
-		hi = 0
 	case 1:
-		lo, hi = 1, 1
-	case 2:
-		lo, hi = 30, c10MaxRegions
+		m.Regions = rapid.SliceOfN(c10RegionGen, 1, 1).Draw(t, "regions")
+	case 9:
+		m.Regions = rapid.SliceOfN(c10RegionGen, 0, 10).Draw(t, "regions")
+		m.Regions = append(m.Regions, rapid.SliceOfN(c10RegionGen, 20, c10MaxRegions-10).Draw(t, "moreregions")...)
+	default:
+		m.Regions = rapid.SliceOfN(c10RegionGen, 0, 10).Draw(t, "regions")
 	}
-	m.Regions = rapid.SliceOfN(c10RegionGen, lo, hi).Draw(t, "regions")
 	return m
 }
 
@@ -871,6 +871,7 @@ func c10SelfCheck(c c10Case) error {
 func TestVerifC10(t *testing.T) {
 	st := vlib.For("C10")
 	defer vlib.Flush()
+	c10CheckCaptured(t) // builder self-test against the real block, once per shard
 	rapid.Check(t, func(t *rapid.T) {
 		c := c10Normalise(c10GenCase(t))
 		if err := c10SelfCheck(c); err != nil {
@@ -931,7 +932,9 @@ func c10Seeds() map[string]c10Case {
 // same bytes (except what the model deliberately does not keep: ELF link/info/
 // alignment/entry-size words and the string-table address), and the oracle must
 // accept it.
-func TestVerifC10Captured(t *testing.T) {
+func TestVerifC10Captured(t *testing.T) { c10CheckCaptured(t) }
+
+func c10CheckCaptured(t *testing.T) {
 	c, err := c10Captured()
 	if err != nil {
 		t.Fatalf("VERIF-HARNESS C10 cannot parse the captured block: %v", err)
